@@ -411,6 +411,27 @@ func checkC12(p *Prog, r *Report) {
 
 	/* 3. Clean exit. */
 	sh := p.Func(hsrvPkg, "Server", "serveHTTP")
+	/* The sentinel under its reference name, or — when the tree no longer
+	has a variable of that name — the only never-reassigned module error
+	variable which serveHTTP hands out. */
+	oneShellErrs := p.globalAliases("ErrOneShellClosed")
+	if nil != sh && 0 == len(oneShellErrs) {
+		seen := map[*ssa.Global]bool{}
+		for _, f := range withAnons(sh) {
+			eachInstr(f, func(i ssa.Instruction) {
+				if u, ok := i.(*ssa.UnOp); ok && token.MUL == u.Op {
+					if g, ok := u.X.(*ssa.Global); ok && p.sentinelError(g) {
+						seen[g] = true
+					}
+				}
+			})
+		}
+		if 1 == len(seen) {
+			for g := range seen {
+				oneShellErrs = p.globalAliases(g.Name())
+			}
+		}
+	}
 	if nil == sh {
 		rExit.Unproven("serveHTTP", token.NoPos, "not found")
 	} else {
@@ -424,7 +445,7 @@ func checkC12(p *Prog, r *Report) {
 					return
 				}
 				g, ok := u.X.(*ssa.Global)
-				if !ok || "ErrOneShellClosed" != g.Name() {
+				if !ok || !p.ownGlobal(g) || !oneShellErrs[g.Name()] {
 					return
 				}
 				nmap++
@@ -484,13 +505,13 @@ func checkC12(p *Prog, r *Report) {
 	eachInstr(rm, func(i ssa.Instruction) {
 		c, ok := i.(*ssa.Call)
 		if ok && "errors.Is" == calleeName(c.Common()) {
-			if globalLoadName(c.Common().Args[1]) == "ErrOneShellClosed" {
+			if oneShellErrs[ownGlobalLoadName(c.Common().Args[1])] {
 				isCall = c
 				allIs = append(allIs, c)
 			}
 			/* Or one of a fixed table of errors which lists it. */
 			for _, n := range tableElemNames(p, c.Common().Args[1]) {
-				if "ErrOneShellClosed" == n {
+				if oneShellErrs[n] {
 					isCall = c
 					allIs = append(allIs, c)
 				}
@@ -504,7 +525,7 @@ func checkC12(p *Prog, r *Report) {
 				return
 			}
 			for _, n := range tableNames(p, c.Common().Args[0]) {
-				if "ErrOneShellClosed" == n {
+				if oneShellErrs[n] {
 					isCall = c
 				}
 			}
@@ -600,6 +621,23 @@ func globalLoadName(v ssa.Value) string {
 		return ""
 	}
 	if g, ok := u.X.(*ssa.Global); ok {
+		return g.Name()
+	}
+	return ""
+}
+
+// ownGlobalLoadName: the same, with the variables of other modules qualified
+// by their package ("io.EOF"), so that a name of the module's own is matched
+// by nothing else.
+func ownGlobalLoadName(v ssa.Value) string {
+	u, ok := stripConv(v, false).(*ssa.UnOp)
+	if !ok || token.MUL != u.Op {
+		return ""
+	}
+	if g, ok := u.X.(*ssa.Global); ok {
+		if nil != g.Pkg && !strings.HasPrefix(g.Pkg.Pkg.Path(), ModPath) {
+			return g.Pkg.Pkg.Name() + "." + g.Name()
+		}
 		return g.Name()
 	}
 	return ""
@@ -853,7 +891,7 @@ func tableNames(p *Prog, tbl ssa.Value) []string {
 		}
 		for _, r2 := range *ea.Referrers() {
 			if st, ok := r2.(*ssa.Store); ok && st.Addr == ssa.Value(ea) {
-				if nm := globalLoadName(st.Val); "" != nm {
+				if nm := ownGlobalLoadName(st.Val); "" != nm {
 					out = append(out, nm)
 				} else {
 					return nil
@@ -906,7 +944,20 @@ func newClosesOnlyOnError(hnew *ssa.Function, closeCall ssa.Instruction) bool {
 func checkC12InputLoop(p *Prog, r *Report, ru *Rule) {
 	isReadLine := func(i ssa.Instruction) bool {
 		cc := callCommon(i)
-		return nil != cc && strings.HasSuffix(calleeName(cc), "goxterm.Terminal).ReadLine")
+		if nil == cc {
+			return false
+		}
+		if strings.HasSuffix(calleeName(cc), "goxterm.Terminal).ReadLine") {
+			return true
+		}
+		/* Through an interface or adapter of the package's own. */
+		nm := ""
+		if cc.IsInvoke() {
+			nm = cc.Method.Name()
+		} else if sc := cc.StaticCallee(); nil != sc {
+			nm = sc.Name()
+		}
+		return "ReadLine" == nm && 2 == cc.Signature().Results().Len() && isErrorType(cc.Signature().Results().At(1).Type())
 	}
 	n := 0
 	for _, fn := range p.Funcs() {
